@@ -17,7 +17,7 @@ RULES = {
     "R6": "borrowed clauses: C03.R3 (image commands carry width/height = rendered size, preserveAspectRatio=0), C03.R6 (kitty o=z flag never stale across strips) and "
           "C04.R3 (rendered_size re-evaluated on every access) hold for the renderers - the rectangle advertised is the rectangle painted",
     "MEMO": "memo safety (shared, rules/common.py): a memoised function in this property's files (or called from them) is a function of its "
-            "arguments only (no terminal/ambient/receiver state outside the key) and no caller mutates its result in place",
+            "arguments only (no terminal/ambient/receiver state outside the key) and no caller mutates its result in place; renderers keep no state: _render_image, _get_render_data, _format_render and the size helpers store to no attribute of the instance or class",
     "R1": "template completeness: every control-sequence constant of _ctlseqs.py, constant-folded, is a concatenation of complete ECMA-48 "
           "sequences (CSI ... final byte; OSC/APC/DCS ... ST) with placeholders only in parameter/payload positions; the declared "
           "introducers/terminators are exactly ESC BEL APC CSI DCS OSC ST KITTY_START ITERM2_START; the bytes versions are generated for all; "
@@ -377,5 +377,6 @@ MUTANTS = [
       "                        f\"size={compressed_image.tell()};width={r_width}\"\n                        f\";height={r_height};preserveAspectRatio=0;inline=1:\"\n                    )\n                )\n                compressed_image.seek(0)\n                return \"\".join(\n                    (\n                        (\n                            \"\"\n                            if is_on_konsole", {"R4"}),
     M("block-eol-no-reset", BL, "BlockImage._render_image", "end_of_line = SGR_DEFAULT + \"\\n\"", "end_of_line = \"\\n\"", {"R4"}),
     M("block-le", BL, "BlockImage._render_image", "if row_no < height:", "if row_no <= height:", {"R4"}),
+    M("renderer-keeps-last-transmission", KT, "KittyImage._render_image", "        vars(control_data).update(v=height, r=r_height)\n", "        vars(control_data).update(v=height, r=r_height)\n        self._last_whole = (height, r_height)\n", {"MEMO"}),
     M("twin-rename-fill", KT, "KittyImage._render_image", "fill_newline", "fill_nl", twin=True, count=0),
 ]
